@@ -257,8 +257,8 @@ impl StringDecoder for Unreal2StringDecoder {
 
             length = position + 1;
 
-            // Decode as latin1
-            let (result, _, invalid_sequences) = WINDOWS_1252.decode(&data[0 .. position]);
+            // Decode as latin1 (the first byte is the length, not part of the text)
+            let (result, _, invalid_sequences) = WINDOWS_1252.decode(&data[position.min(1) .. position]);
 
             if invalid_sequences {
                 return Err(PacketBad.context("latin1 string contained invalid character(s)"));
@@ -290,7 +290,8 @@ impl StringDecoder for Unreal2StringDecoder {
         // Remove all characters between 0x00 and 0x1a
         let result = result.replace(|c: char| c > '\x00' && c <= '\x1a', "");
 
-        *cursor += start + length;
+        // (an unterminated string ends with the packet)
+        *cursor += (start + length).min(data.len());
 
         // Strip delimiter that wasn't included in length
         Ok(result.trim_matches('\0').to_string())
